@@ -24,17 +24,23 @@ func init() {
 	})
 }
 
-// excluded fields: struct type name -> field -> reason
-var c12Excluded = map[string]map[string]string{
-	"channel": {
-		"attachment": "property text: unsynchronised attachment access is outside this contract",
-	},
-	"pipeline": {
-		"*": "property text: mutating a pipeline while events flow is outside this contract",
-	},
-	"handlerContext": {
-		"*": "property text: mutating a pipeline while events flow is outside this contract",
-	},
+// c12ExcludedReason: exclusions the property text itself makes, resolved structurally (not by identifier):
+// the pipeline implementation and its handler contexts (mutating a pipeline while events flow is outside the
+// contract) and the channel's attachment field (unsynchronised attachment access is outside the contract).
+func c12ExcludedReason(p *core.Prog, n *types.Named, f *types.Var) string {
+	r := p.Roles()
+	if r.PipelineIface != nil && core.Implements(n, r.PipelineIface) {
+		return "property text: mutating a pipeline while events flow is outside this contract"
+	}
+	if hc := lookupNamedT(r.Root, "HandlerContext"); hc != nil && core.Implements(n, hc) {
+		return "property text: mutating a pipeline while events flow is outside this contract"
+	}
+	if f != nil && n == r.Chan {
+		if att := lookupNamedT(r.Root, "Attachment"); att != nil && types.Identical(f.Type(), att) {
+			return "property text: unsynchronised attachment access is outside this contract"
+		}
+	}
+	return ""
 }
 
 func isSafeFieldType(t types.Type) bool {
@@ -94,23 +100,21 @@ func runC12(c *core.Ctx) {
 
 	for _, tg := range targets {
 		tn := tg.n.Obj().Name()
-		if ex, ok := c12Excluded[tn]; ok {
-			if why, all := ex["*"]; all {
-				c.Note("type %s excluded: %s", tn, why)
-				continue
-			}
+		if why := c12ExcludedReason(p, tg.n, nil); why != "" {
+			c.Note("type %s excluded: %s", tn, why)
+			continue
 		}
 		var mu *types.Var
 		for _, f := range fieldsOfNamed(tg.n) {
 			if core.NamedIs(f.Type(), "sync", "Mutex") || core.NamedIs(f.Type(), "sync", "RWMutex") {
-				if tn == "channel" {
+				if tg.n == p.Roles().Chan {
 					continue // the write lock serialises synchronous writes, it guards no field
 				}
 				mu = f
 			}
 		}
 		for _, f := range fieldsOfNamed(tg.n) {
-			if why, ok := c12Excluded[tn][f.Name()]; ok {
+			if why := c12ExcludedReason(p, tg.n, f); why != "" {
 				c.Note("field %s.%s excluded: %s", tn, f.Name(), why)
 				continue
 			}
